@@ -14,7 +14,13 @@ EXPLANATION = (
     "sub-byte path has an argument whose origin contains get_bits_from_u8(..) (or is the result of fetch_ops_on_bits, itself checked), so "
     "value-returning operations - including both arms of compare_exchange and fetch_update - return the field only, never the raw header "
     "byte; every u8 written back on that path (plain store, compare_exchange new/old bytes, fetch_update closure result) has an origin "
-    "containing set_bits_to_u8(current_byte, ..); the atomic store/update variants never use a plain store on the sub-byte path."
+    "containing set_bits_to_u8(current_byte, ..); the atomic store/update variants never use a plain store on the sub-byte path. "
+    "Neighbours-preserved clause (rules/bitiso.py): set_bits_to_u8 / get_bits_from_u8 / truncate_bits_in_u8 / get_shift_and_mask_for_bits are checked "
+    "to be the mask idioms they are taken for, and every byte or word written back (plain store, both CAS operands, fetch_update closure results incl. the "
+    "closure mapped over the user's result, AND/OR operands, and the optional-mask paths of store/compare_exchange for >= 1 byte fields) is evaluated in "
+    "the abstract domain {RAW, ZERO, ONES, ANY} of its bits outside the mask: stored values must be RAW, an AND operand ONES, an OR operand ZERO; computed "
+    "field values must be truncated before set_bits_to_u8. The cas-result clause: Ok/Err payloads of both compare-exchange implementations are computed by "
+    "closures that read the byte the hardware CAS returned."
 )
 P = "util::metadata::header_metadata::HeaderMetadataSpec::"
 
@@ -100,3 +106,38 @@ def run(ctx, F):
     inner = [cl for cl in closures_of(F, fu) if tree_calls(ret_table(cl)[0][1], name="set_bits_to_u8")] if closures_of(F, fu) else []
     ctx.judge(bool(inner), "C23.extract-before-convert", "fetch_update writes back through set_bits_to_u8", expected="new byte = set_bits_to_u8(raw_byte, truncated(new))", found=str(len(inner)), where=where(fu),
               key="C23.extract-before-convert|fetch_update-write")
+    # ---- C23.neighbours-preserved: abstract interpretation of every byte/word written back (rules/bitiso.py)
+    from . import bitiso
+    bitiso.check_helpers(ctx, F, "C23.neighbours-preserved", "header")
+    # compare_exchange with the caller's optional mask splices old/new in unclipped: the accessor documents that the caller passes
+    # values already confined to the mask (store() clips explicitly and is held to that)
+    nsites = bitiso.check_isolation(ctx, F, "C23.neighbours-preserved", P, "header", trusted={"compare_exchange": (("arg", 3), ("arg", 4))})
+    ctx.floor("C23.neighbours-preserved", nsites, 11, "write-back sites of in-header metadata")
+    check_cas_result(ctx, F, "C23.cas-result")
+
+
+def check_cas_result(ctx, F, rule):
+    """What a compare-exchange reports (Ok(previous) / Err(current)) is what the hardware CAS observed, not an earlier read."""
+    for q, raw_cas in ((P + "compare_exchange", "util::address::Address::compare_exchange"),
+                       ("util::metadata::side_metadata::global::SideMetadataSpec::compare_exchange_atomic", "util::address::Address::compare_exchange")):
+        f = F.fn(q)
+        n = 0
+        for g in fn_and_closures(F, f):
+            for c in live_calls(g):
+                if c.name in ("map", "map_err") and c.q and "Result" in c.q and len(c.args) == 2:
+                    src = show(strip(g.flow.arg_tree(c, 0)))
+                    if "compare_exchange" not in src:
+                        continue
+                    clo = [s for s in walk(strip(g.flow.arg_tree(c, 1))) if s and s[0] == "agg" and s[1][0] == "closure"]
+                    okc = False
+                    found = "mapper is not a closure literal"
+                    if len(clo) == 1 and clo[0][1][1] in F.fns:
+                        m = F.fns[clo[0][1][1]]
+                        rts = [strip(t) for _, t in m.flow.return_trees()]
+                        okc = bool(rts) and all(any(s == ("arg", 2) for s in walk(t)) for t in rts)
+                        found = str([show(t)[:100] for t in rts])
+                    n += 1
+                    ctx.judge(okc, rule, "%s: %s derives the reported field from the byte the CAS observed" % (short(g.q), c.name), expected="closure over the CAS result that reads its argument",
+                              found=found, where=where(g, c.line), key="%s|%s|%s" % (rule, last_seg(q), c.name))
+        ctx.judge(n == 2, rule, "%s maps both arms of the byte CAS back to field values" % short(q), expected="map + map_err on the compare_exchange result", found=str(n), where=where(f),
+                  key="%s|%s|arms" % (rule, last_seg(q)))
